@@ -312,7 +312,7 @@ class FullGen:
                 sp, v = self.d(st.sampled_from(cbgen.NUM_SPELLINGS))
                 items.append(["n", sp, v])
             elif r < 5:
-                items.append(["q", self.d(st.sampled_from(["", "A", "A B", " X ", "HELLO, WORLD", "RUN x", "a:b"]))])
+                items.append(["q", self.d(st.sampled_from(["", "A", "A B", " X ", "HELLO, WORLD", "RUN x", "a:b", "FF\x0cRUN ecb_play", "LS\u2028x"]))])
             elif r < 7:
                 items.append(["u", self.d(st.sampled_from(["ABC", "A B", "X  ", "HELLO WORLD", "RED", "Z9 ", "DON'T", "IT'S RUN ecb_play", "'Q"]))])
             elif r < 8:
@@ -360,7 +360,7 @@ class FullGen:
             return self.data_stmt()
         if r == 3:
             self.kinds.add("rem")
-            return ["rem", self.d(st.sampled_from([" HELLO", "", " a:b", " RUN ecb_x", ' "quoted" text', " IT'S"])), self.d(st.sampled_from(["REM", "'"]))]
+            return ["rem", self.d(st.sampled_from([" HELLO", "", " a:b", " RUN ecb_x", ' "quoted" text', " IT'S", " PAGE\x0cBREAK", " NEL\x85 here"])), self.d(st.sampled_from(["REM", "'"]))]
         if r == 4:
             self.kinds.add("clear")
             return ["clear", self.d(st.sampled_from([None, ["num", "200", 200], ["num", "1000", 1000]]))]
